@@ -52,7 +52,7 @@ Defined(gr, m, name) ==
 
 \* the imports module m really has: main always imports the entry points of the modules it uses
 Imports(gr, m) ==
-    IF m = "main" THEN gr.imp.main \cup {<<"pb", "b">>} \cup (IF gr.hasc THEN {<<"pc", "c">>} ELSE {})
+    IF m = "main" THEN gr.imp.main \cup (IF gr.mainb THEN {<<"pb", "b">>} ELSE {}) \cup (IF gr.hasc THEN {<<"pc", "c">>} ELSE {})
     ELSE gr.imp[m]
 
 \* modules reachable from main through imports (only those are ever looked at)
@@ -114,8 +114,11 @@ CallLines(gr, m, name, hs, depth) ==
            [] name \in {"pb", "pc"} ->
                 LET own == IF d = "c" /\ gr.cbare THEN << <<"c", "pbare">> >> ELSE << <<d, "p", XVal(Resolve(gr, d, "x")), hs[d]>> >>
                     r1 == CallLines(gr, d, "f", hs, depth + 1)
-                    r2 == CallLines(gr, d, "h", r1.hist, depth + 1) IN
-                [lines |-> own \o r1.lines \o r2.lines, hist |-> r2.hist]
+                    \* an entry point also calls the other library's entry point if its module imports it
+                    \* (so a library may only be reachable - and initialised - through another library)
+                    ro == CallLines(gr, d, IF d = "b" THEN "pc" ELSE "pb", r1.hist, depth + 1)
+                    r2 == CallLines(gr, d, "h", ro.hist, depth + 1) IN
+                [lines |-> own \o r1.lines \o ro.lines \o r2.lines, hist |-> r2.hist]
 
 MainLines(gr) ==
     LET h0 == [m \in Mods |-> 1]
@@ -133,16 +136,18 @@ MainLines(gr) ==
 VisN(v) == CASE v = "none" -> 0 [] v = "priv" -> 1 [] v = "pub" -> 2
 BN(x) == IF x THEN 1 ELSE 0
 \* (the graph is chosen by an action, not in Init: TLC computes initial states on one thread)
-NoGraph == [f |-> [main |-> "none", b |-> "none", c |-> "none"], x |-> [b |-> "priv", c |-> "priv"], t |-> "none", hasc |-> FALSE, cbare |-> FALSE,
+NoGraph == [f |-> [main |-> "none", b |-> "none", c |-> "none"], x |-> [b |-> "priv", c |-> "priv"], t |-> "none", hasc |-> FALSE, cbare |-> FALSE, mainb |-> TRUE,
             imp |-> [main |-> {}, b |-> {}, c |-> {}]]
 Init == g = NoGraph /\ inited = <<>> /\ hist = [m \in Mods |-> 0] /\ out = <<>> /\ phase = "pick"
 Pick ==
     /\ phase = "pick"
-    /\ \E fm \in {"none", "priv"}, fb \in Vis, fc \in Vis, xb \in {"priv", "pub"}, xc \in {"priv", "pub"}, tb \in Vis, hc \in BOOLEAN, cb \in BOOLEAN :
+    /\ \E fm \in {"none", "priv"}, fb \in Vis, fc \in Vis, xb \in {"priv", "pub"}, xc \in {"priv", "pub"}, tb \in Vis, hc \in BOOLEAN, cb \in BOOLEAN, mb \in BOOLEAN :
          \* (a bare c has no globals at all - nothing to initialise -, no f, and nothing but pc to import)
          /\ cb => (hc /\ fc = "none" /\ xc = "priv")
+         \* (main leaves b to c only if there is a c)
+         /\ ~mb => hc
          /\ (VisN(fb) + 3 * VisN(fc) + 9 * VisN(tb) + 27 * BN(hc) + 54 * BN(xb = "pub") + 108 * BN(xc = "pub") + 216 * VisN(fm)) % Slices = Slice
-         /\ g' = [NoGraph EXCEPT !.f = [main |-> fm, b |-> fb, c |-> fc], !.x = [b |-> xb, c |-> xc], !.t = tb, !.hasc = hc, !.cbare = cb]
+         /\ g' = [NoGraph EXCEPT !.f = [main |-> fm, b |-> fb, c |-> fc], !.x = [b |-> xb, c |-> xc], !.t = tb, !.hasc = hc, !.cbare = cb, !.mainb = mb]
     /\ phase' = "pick2" /\ UNCHANGED <<inited, hist, out>>
 PickImports ==
     /\ phase = "pick2"
@@ -185,7 +190,7 @@ ResolvesToDefiningModule ==
         LET d == Resolve(g, m, n) IN d # "" => Defined(g, d, n) # "none"
 
 Finished == phase \in {"done", "rejected"}
-Export == Finished => PrintT(<<"CASE", ToJson([g |-> [f |-> g.f, x |-> g.x, t |-> g.t, cbare |-> g.cbare, hasc |-> g.hasc,
+Export == Finished => PrintT(<<"CASE", ToJson([g |-> [f |-> g.f, x |-> g.x, t |-> g.t, cbare |-> g.cbare, mainb |-> g.mainb, hasc |-> g.hasc,
                                                       imp |-> [m \in Mods |-> SetToSeq(g.imp[m])]],
                                                accepted |-> Accepted(g), unspecified |-> Unspecified(g), errors |-> SetToSeq(AllErrors(g)),
                                                out |-> IF Accepted(g) /\ ~Unspecified(g) THEN MainLines(g) ELSE <<>>])>>)
